@@ -110,9 +110,15 @@ class Intervals:
                 p = x.preds[0]; t = p.term
                 if t.op == "br" and len(t.ops) == 3 and t.ops[1]["v"] != t.ops[2]["v"] and t.ops[0]["k"] == "inst":
                     ci = fn.imap[t.ops[0]["v"]]; taken = (x.id == t.ops[2]["v"])
-                    if ci.op == "icmp" and ci.ops[1]["k"] == "int":
+                    rhs_const = None
+                    if ci.op == "icmp" and ci.ops[1]["k"] != "int" and ci.ops[0]["k"] != "int":
+                        # compared with a value that is a single constant in this context (e.g. (1 << to_bits) - 1 for a known to_bits)
+                        try: rv = self.ival(ci.ops[1])
+                        except RecursionError: rv = (-INF, INF)
+                        if rv[0] == rv[1] and rv[0] not in (INF, -INF): rhs_const = int(rv[0])
+                    if ci.op == "icmp" and (ci.ops[1]["k"] == "int" or rhs_const is not None):
                         k = self.key_of(ci.ops[0]); pr = ci["pred"]
-                        c = int(ci.ops[1]["sv"]) if pr.startswith("s") else int(ci.ops[1]["v"])
+                        c = rhs_const if rhs_const is not None else (int(ci.ops[1]["sv"]) if pr.startswith("s") else int(ci.ops[1]["v"]))
                         q = pr[1:] if pr not in ("eq", "ne") else pr
                         if not taken: q = {"lt": "ge", "le": "gt", "gt": "le", "ge": "lt", "eq": "ne", "ne": "eq"}[q]
                         # (v >> s) == 0  <=>  v < 2^s
@@ -140,6 +146,46 @@ class Intervals:
                             for c in t["cases"]: add(k, ne=int(c["v"]))
             if x.id not in idom or idom[x.id] == x.id: break
             x = fn.bmap[idom[x.id]]
+        # a phi whose constant incoming values are all excluded here can only have come in by its remaining edge: what held on
+        # that edge's source holds here too (e.g. `need` = 1 / 2 / tag - 246 and need is neither 1 nor 2  =>  the path set tag >= 249)
+        self._ref[b.id] = cons                       # (recursion guard: partial result)
+        snap = lambda kk: None if kk not in cons else (cons[kk][0], cons[kk][1], frozenset(cons[kk][2]))
+        def follow(ph, c, depth):
+            """the only incoming edge of phi `ph` compatible with constraint c: import what holds at its source; returns True if anything was added"""
+            if depth > 4 or ph.block.id in fn.loops(): return False
+            live = []
+            for inc in ph["incoming"]:
+                v = inc["v"]
+                if v["k"] == "int":
+                    cv = int(v["sv"]) if "sv" in v else int(v["v"])
+                    if cv < c[0] or cv > c[1] or cv in c[2]: continue          # this edge would contradict what is known here
+                live.append(inc)
+            if len(live) != 1: return False
+            inc = live[0]; src = fn.bmap[inc["b"]]; grew = False
+            for k2, c2 in self.constraints_at(src).items():
+                before = snap(k2)
+                add(k2, lo=c2[0] if c2[0] != -INF else None, hi=c2[1] if c2[1] != INF else None)
+                for e in c2[2]: add(k2, ne=e)
+                if snap(k2) != before: grew = True
+            kv = self.key_of(inc["v"])
+            if kv is not None:
+                before = snap(kv)
+                add(kv, lo=c[0] if c[0] != -INF else None, hi=c[1] if c[1] != INF else None)
+                for e in c[2]: add(kv, ne=e)
+                if snap(kv) != before: grew = True
+                if kv[0] == "v":
+                    inner = fn.imap.get(kv[1])
+                    if inner is not None and inner.op == "phi" and fn.dominates(inner.block.id, src.id):
+                        if follow(inner, cons[kv], depth + 1): grew = True
+            return grew
+        for _round in range(3):
+            grew = False
+            for k, c in list(cons.items()):
+                if k[0] != "v": continue
+                ph = fn.imap.get(k[1])
+                if ph is None or ph.op != "phi" or ph.block.id == b.id or not fn.dominates(ph.block.id, b.id): continue
+                if follow(ph, c, 0): grew = True
+            if not grew: break
         self._ref[b.id] = cons
         return cons
 
@@ -178,7 +224,17 @@ class Intervals:
     def _compute(self, i, depth):
         op = i.op; top = type_range(i["t"])
         if depth > 30: return top
-        A = lambda n: self.ival(i.ops[n], depth + 1)
+        def A(n):
+            # the operand as seen where this instruction executes: what the dominating branches of its block say about it holds here
+            a = self.ival(i.ops[n], depth + 1)
+            if op == "phi" or depth > 12: return a
+            try:
+                k = self.key_of(i.ops[n])
+                c = self.constraints_at(i.block).get(k) if k is not None else None
+            except RecursionError: c = None
+            if c is None: return a
+            lo, hi = max(a[0], c[0]), min(a[1], c[1])
+            return (lo, hi) if lo <= hi else a
         bits = type_bits(i["t"]) or 64
         def clamp(lo, hi):
             # result is only meaningful if it cannot wrap in the unsigned or signed range of the type
@@ -263,6 +319,7 @@ class Intervals:
             lo, hi = INF, -INF
             for inc in i["incoming"]:
                 if inc["v"]["k"] == "inst" and inc["v"]["v"] == i.id: continue
+                if (inc["b"], i.block.id) in getattr(self, "_dead", ()): continue      # that edge cannot be taken in this context
                 a = self.ival(inc["v"], depth + 1)
                 if self.fi is not None or True:
                     try:
@@ -333,7 +390,26 @@ class Intervals:
         return None
 
     def dead_edges(self):
-        """(pred, succ) edges that cannot be taken under this context"""
+        """(pred, succ) edges that cannot be taken under this context.  Iterated: a phi only joins the values that arrive over edges
+        already shown dead-free, and a block with no live way in has no live way out."""
+        prev = None
+        for _ in range(6):
+            out = self._dead_edges_once()
+            out |= getattr(self, "_dead", set())
+            while True:
+                grew = False
+                for b in self.fn.blocks:
+                    if b is self.fn.entry or not b.preds: continue
+                    if all((p.id, b.id) in out for p in b.preds):
+                        for sx in b.succs:
+                            if (b.id, sx.id) not in out: out.add((b.id, sx.id)); grew = True
+                if not grew: break
+            if out == prev: break
+            prev = out
+            self._dead = set(out); self.memo = {}; self._ref = {}
+        return prev if prev is not None else set()
+
+    def _dead_edges_once(self):
         out = set()
         for b in self.fn.blocks:
             t = b.term
